@@ -362,8 +362,11 @@ req0_recv_cb(void *arg)
 		return;
 	}
 
-	// We have our match, so we can remove this.
+	// We have our match, so we can remove this.  The exchange is over:
+	// neither the loss of the pipe nor the retry timer concern it anymore.
 	nni_list_node_remove(&ctx->send_node);
+	nni_list_node_remove(&ctx->pipe_node);
+	nni_list_node_remove(&ctx->retry_node);
 	nni_id_remove(&s->requests, id);
 	ctx->request_id = 0;
 	if (ctx->req_msg != NULL) {
